@@ -4,10 +4,10 @@ import numpy as np
 from harness import common as C
 from harness import zoo as Z
 
-ANCHORS = ["T3", "T5eof", "T5rot"]
-MODELS = ["RotCase"]
+ANCHORS = ["T3", "T5eof", "T5rot", "T5flag"]
+MODELS = ["RotCase", "FlagCase"]
 RULE = ("every transform-capable class (EOF, ComplexEOF, SparsePCA, POP, CPCCA/MCA/CCA/RDA and complex variants, their rotators with power 1..3, "
-        "multi.CCA) x alpha grid x use_pca x normalized x structure (1-2 sample dims, 1-2 feature dims, fully missing samples); "
+        "multi.CCA) x alpha grid x use_pca x normalized x fresh rotator objects and rotator objects that rotated another model and were queried before x structure (1-2 sample dims, 1-2 feature dims, fully missing samples); "
         "non-trivial: >= 3 samples and >= 2 features and a numeric comparison was made; distinct by input hash")
 PARTIAL = ["SparsePCA and multi.CCA internals are oracle-only (no algebraic model): transform-vs-scores is compared on the implementation"]
 REFUTED = []
@@ -186,6 +186,14 @@ def run_cross(ctx, rng, n_cases):
             for power in ([1, 2] if ctx.quick else [1, 2, 3]):
                 try:
                     rot = Rc(n_modes=k, power=power, max_iter=2000, rtol=1e-10)
+                    history = (7919 * i + 19) if (i // len(names)) % 2 == 1 else 0
+                    if history:
+                        rh = np.random.default_rng(history)
+                        X0, Y0 = C.other_like(rh, X), C.other_like(rh, Y)
+                        m0 = sp.make(k, **kw)
+                        m0.fit(X0, Y0, "time")
+                        rot.fit(m0)
+                        C.exercise(rot, X0, Y0)
                     rot.fit(m)
                     r1, r2 = rot.scores()
                     q1, q2 = rot.transform(X, Y)
@@ -200,7 +208,7 @@ def run_cross(ctx, rng, n_cases):
                     continue
                 a = kw.get("alpha", {"MCA": [1, 1], "ComplexMCA": [1, 1], "CCA": [0, 0], "RDA": [0, 1]}.get(name))
                 whit = "alpha<1" if min(a) < 1 else "alpha=1"
-                ctx.case(("xrot", name, n, p1, p2, k, power, str(kw)), nontrivial=True, tag="%sRotator/power%d/%s" % (name, power, whit))
+                ctx.case(("xrot", name, n, p1, p2, k, power, str(kw)), nontrivial=True, tag="%sRotator/power%d/%s%s" % (name, power, whit, "/refit" if history else ""))
                 compare(ctx, "C04:CPCCARotator:%s" % whit, "rotator(power=%d) on %s(k=%d, %s) field X" % (power, name, k, kw), r1, q1, ("time",), dict(replay, power=power))
                 compare(ctx, "C04:CPCCARotator:%s" % whit, "rotator(power=%d) on %s(k=%d, %s) field Y" % (power, name, k, kw), r2, q2, ("time",), dict(replay, power=power))
 
@@ -238,11 +246,19 @@ def run_rotators(ctx, rng, n_cases):
         da = xr.DataArray(X, dims=("time", "x"), coords={"time": np.arange(n), "x": np.arange(p)})
         k = int(rng.integers(3, min(7, p) + 1))
         power = int(rng.integers(1, 3))
-        replay = dict(kind="rotator", cls=name, k=k, power=power, data=np.asarray(X))
+        history = (7919 * i + 17) if i % 3 == 2 else 0
+        replay = dict(kind="rotator", cls=name, k=k, power=power, data=np.asarray(X), history=history)
         try:
             m = Z.specs()[name].make(k, solver="full")
             m.fit(da, "time")
             rot = Z.rotator_for(name)(n_modes=k, power=power, max_iter=5000, rtol=1e-10)
+            if history:
+                # the rotator object rotated another model (unrelated data of the same structure) and was used before
+                other = C.other_like(np.random.default_rng(history), da)
+                m0 = Z.specs()[name].make(k, solver="full")
+                m0.fit(other, "time")
+                rot.fit(m0)
+                C.exercise(rot, other)
             rot.fit(m)
             rs, rt = rot.scores(), rot.transform(da)
         except RuntimeError as e:
@@ -256,8 +272,8 @@ def run_rotators(ctx, rng, n_cases):
         reordered = order != sorted(order)
         mixed = len(set(np.sign(sign).tolist())) > 1
         ctx.dist["rotator:reordered=%s,mixed-signs=%s" % (reordered, mixed)] += 1
-        ctx.case(("rot-many", name, n, p, k, power, i), nontrivial=True, tag="%sRotator/k%d/power%d" % (name, k, power),
-                 sample=dict(cls=name + "Rotator", shape=[n, p], k=k, power=power, reordered=reordered, mixed_signs=mixed))
+        ctx.case(("rot-many", name, n, p, k, power, i), nontrivial=True, tag="%sRotator/k%d/power%d%s" % (name, k, power, "/refit" if history else ""),
+                 sample=dict(cls=name + "Rotator", shape=[n, p], k=k, power=power, reordered=reordered, mixed_signs=mixed, refit=bool(history)))
         compare(ctx, "C04:%sRotator:power%d" % (name, min(power, 2)), "%sRotator(power=%d, n_modes=%d)" % (name, power, k), rs, rt, ("time",), replay)
 
 
@@ -270,6 +286,8 @@ def run(ctx):
     run_multi(ctx, rng, ctx.n(6, 60))
     ctx.oblige("oracle:transform(training) == scores on every transform-capable class", "oracle", not ctx.violations)
     if ctx.extra.get("model_ok", True):
+        from harness import flag
+        flag.run(ctx, "C04", ctx.n(24, 240), classes=("EOFRotator", "MCARotator"))
         try:
             from props import rotcase
             rotcase.run_correspondence(ctx, "C04")
